@@ -34,7 +34,8 @@ CLAIMED["C02"] = dict(
           "energy flux and equal momentum flux; the residuals given to brentq/hybr are those relations; findMatching dispatches on vw>vJ, "
           "returns the matching at the root of (shock temperature - Tn) and takes the template fallback only when no sign change was found "
           "and the bounded extremum is positive; findHydroBoundaries returns c1=-w g^2 v and c2=p+w g^2 v^2 of BOTH sides and "
-          "velocityMid=-(v+ + v-)/2. Known finding F7: on the path where hybr did not converge the tuple is returned anyway."),
+          "velocityMid=-(v+ + v-)/2. Known finding F7: on the path where hybr did not converge the tuple is returned anyway."
+          " The template model's own _findTm/getVp/wFromAlpha/findHydroBoundaries/findMatching obligations (observation points of this property) are discharged here as well (shared with C15)."),
     note=COMMON_NOTE + " Not decided: convergence of hybr/brentq; the 'exact rather than approximate' clause beyond the guard of the fallback. "
          "Block contract: the initial-guess section of matchDeflagOrHyb is abstracted by its frame (checked on the AST each run).",
     design="3 (C02)")
@@ -45,7 +46,8 @@ CLAIMED["C03"] = dict(
           "three cases of the case split (loop contract for the bracket search); centre-frame v+ is the Lorentz addition; detonation front is "
           "undisturbed; efficiencyFactor integrates xi^2 v^2 g^2 w of the same right-hand side with prefactor 4/(vw^3 w(Tn) alpha_n), rarefaction "
           "part with low-phase enthalpy and minus sign; template _dxiAndWdv and its event are the constant-sound-speed versions."
-          " Template model: efficiencyFactor (w+ = (T+/Tn)^mu, w- from energy-flux continuity, shock part iff vw<vJ from mu(vw,v+), rarefaction part iff vw>cb with minus sign, integrand, prefactor 4/(vw^3 alN)) and integratePlasma (what solve_ivp is given: rhs, span to 1e-10, initial state, front event terminal iff shock wave, rtol/10)."),
+          " Template model: efficiencyFactor (w+ = (T+/Tn)^mu, w- from energy-flux continuity, shock part iff vw<vJ from mu(vw,v+), rarefaction part iff vw>cb with minus sign, integrand, prefactor 4/(vw^3 alN)) and integratePlasma (what solve_ivp is given: rhs, span to 1e-10, initial state, front event terminal iff shock wave, rtol/10)."
+          " matchDeton's contract (front undisturbed: v+=vw, T+ = the solver's own Tn; the shared thermodynamics object's current Tn is a different symbol) is re-discharged here."),
     note=COMMON_NOTE + " Not decided: accuracy of solve_ivp and simpson, that the terminal event fires.",
     design="3 (C03)")
 CLAIMED["C05"] = dict(
@@ -55,7 +57,8 @@ CLAIMED["C05"] = dict(
           "mismatch at vMin negative after those guards, otherwise the brentq root of (shock temperature - Tn) on [vMin, vmax] with bracket signs "
           "and tolerances as stated; the convergence flag is never read before it is written (stale-state frame obligation)."
           " A path that returns the runaway sentinel without its evidence gets the same obligation (nothing implies it). Root finds are identified by their call site."
-          " Class frame of Hydrodynamics (on the AST): no method other than the constructor writes the window constants (vJ, vMin, ranges, tolerances); per-call state is the convergence flag and the two phase-trace-limit flags."),
+          " Class frame of Hydrodynamics (on the AST): no method other than the constructor writes the window constants (vJ, vMin, ranges, tolerances); per-call state is the convergence flag and the two phase-trace-limit flags."
+          " The template LTE machinery of the anchors (template findvwLTE, _eqWall, solveAlpha, maxAl) is discharged here as well (shared with C15)."),
     note=COMMON_NOTE + " Not decided: 'one sign over the whole window' (needs monotonicity of the mismatch), uniqueness of the matching at the root.",
     design="3 (C05)")
 CLAIMED["C06"] = dict(
@@ -66,7 +69,8 @@ CLAIMED["C06"] = dict(
           "(larger root), detonationVAndT solves the matching quadratic on the weak branch and gives v-=cb at vJ; fastestDeflag/slowestDeton: "
           "returned value and range flags on every path."
           " strongestShock (plasma at rest in front, p+(T+)=p-(TMinHydro), result = solveHydroShock(vw,0,T+) at a converged root, 0 iff not bracketed); minVelocity (root of strongestShock(vw)-Tn on (vBracketLow,vJ), 0 iff not bracketed); Hydrodynamics.__init__ (vJ from findJouguetVelocity, template value only on WallGoError; vMin=max(1e-3,minVelocity()); temperature range (tmin,tmax)*Tn; phase ranges; flags)."
-          " Class frame of Hydrodynamics as in C05. Template-model solver methods called from the general solver are values of another implementation (uninterpreted), never inlined."),
+          " Class frame of Hydrodynamics as in C05. Template-model solver methods called from the general solver are values of another implementation (uninterpreted), never inlined."
+          " Class frame of the template model and its matching/minVelocity obligations are discharged here as well (shared with C15)."),
     note=COMMON_NOTE + " Not decided: 0<v<1, v+<v-, T+>Tn, weak-vs-strong selection by the numerical bracket, monotonicity of T(vw).",
     design="3 (C06)")
 
@@ -133,7 +137,8 @@ CLAIMED["C09"] = dict(
           "dVout = 1/2 sum dof dm^2/dphi Delta00, integrated with weight -dz/dchi, and the returned pressure is that integral; chain-rule lemma: "
           "at constant T and without Delta00 the integrand is d/dz V(phi(z))."
           " The weight dz/dchi is the derivative of the position map of Grid and Grid3Scales (callee contract re-discharged here; counter-models are replayed natively)."
-          " _updateGrid: the wall region of the re-mapped grid is the envelope of the walls of all fields (contains each interval [(-1-d_i)L_i, (1-d_i)L_i], both ends attained); tails long enough for the grid's own assertion."),
+          " _updateGrid: the wall region of the re-mapped grid is the envelope of the walls of all fields (contains each interval [(-1-d_i)L_i, (1-d_i)L_i], both ends attained); tails long enough for the grid's own assertion."
+          " Also discharged here: the minimiser box is the configured one; _getNextPressure passes profiles and boundary data through unchanged (shared with C01); EffectivePotential.derivField end to end through the real stencils (shared with C19)."),
     note=COMMON_NOTE + " Not claimed: numerical equality with V(low)-V(high) (quadrature and finite-difference accuracy). Nelder-Mead by stub "
          "(returns arbitrary parameters). Checked on 2 fields x 2 grid points x 2 particles with elementwise expressions.",
     design="3 (C09)")
@@ -145,7 +150,8 @@ CLAIMED["C12"] = dict(
           "(T^2 on the row index, intertwiners, multiplier); operator = Liouville + collision, row-major flattening; homogeneous background => "
           "source 0 (spectral); _dfeq = d _feq/dx for both statistics; solveBoltzmannEquations solves one assembled system and reshapes row-major; "
           "setBackground boosts a deep copy."
-          " EOM.getBoltzmannFiniteDifference works on a deep copy (solver in use untouched), copy switched to finite differences with Cardinal bases, returns the copy's moments."),
+          " EOM.getBoltzmannFiniteDifference works on a deep copy (solver in use untouched), copy switched to finite differences with Cardinal bases, returns the copy's moments."
+          " getDeltas structure obligations and the frame of estimateTruncationError (shared with C13) are discharged here as well."),
     note=COMMON_NOTE + " Bounded in grid size (M=3, N=3; all entries symbolic). findiff's matrix is an arbitrary symbolic matrix. Not decided: "
          "basis independence of the solved deviation for all sizes, FD->spectral convergence, non-singularity of the operator.",
     design="3 (C12)")
@@ -155,7 +161,8 @@ CLAIMED["C13"] = dict(
           "getDeltas wraps the deviation as (Array,z,pz,pp) polynomial without endpoints, brings ALL polynomial axes to the cardinal basis before "
           "applying pointwise weights, integrates over axes (2,3) with W00=(dpz/drz)(dpp/drp) pp/(4 pi^2 E), W02=pz^2 W00, W20=E^2 W00, W11=E pz W00, "
           "E^2=m^2(z)+pz^2+pp^2, and returns the four moments in order."
-          " estimateTruncationError, which getDeltas calls on the same array before the moments are taken, does not modify its argument in any of the four basis configurations (real Polynomial code, aliasing modelled by real numpy arrays)."),
+          " estimateTruncationError, which getDeltas calls on the same array before the moments are taken, does not modify its argument in any of the four basis configurations (real Polynomial code, aliasing modelled by real numpy arrays)."
+          " BoltzmannDeltas / BoltzmannResults arithmetic (+, -, number*, *number) acts on each moment (and on deltaF, Deltas) separately: linear combinations of moment sets are the moment sets of the linear combinations."),
     note=COMMON_NOTE + " Linearity and quadrature exactness are delegated to the contract of Polynomial.integrate/changeBasis (C16). Checked on "
          "2 particles and a 2x2x2 symbolic grid; the expressions are elementwise.",
     design="3 (C13)")
@@ -174,7 +181,8 @@ CLAIMED["C16"] = dict(
     text=("BOUNDED stand-in, not a proof: the real Polynomial/Grid code interpreted with symbolic coefficients on the exact Gauss-Lobatto nodes of "
           "grids (M,N) in {(3,3),(4,5)}: evaluate, cardinal<->Chebyshev round trip, derivative exact at all grid points incl. boundaries from "
           "both bases, GCL integration weights incl. half weights, in z/pz/pp with and without endpoints; rank-2 (Array,pz) independence."
-          " Rank 2 with two polynomial axes (z, pz), all endpoint combinations and three basis pairs: evaluate returns the value of the bivariate polynomial at a generic point (bounded M=N=3)."),
+          " Rank 2 with two polynomial axes (z, pz), all endpoint combinations and three basis pairs: evaluate returns the value of the bivariate polynomial at a generic point (bounded M=N=3)."
+          " One changeBasis call converting two equal axes (pz, pz) in opposite directions preserves the polynomial."),
     note="Bound: grid sizes listed; within a size every polynomial of the space is covered (symbolic coefficients). eval_chebyt/u and "
          "linalg.inv are sympy closed forms. The all-sizes index agreement planned in DESIGN was not built.",
     design="3 (C16)")
@@ -186,7 +194,8 @@ CLAIMED["C15"] = dict(
           "sides; getVp solves the wall relation on both branches and the alpha(vp,vm) of _shooting is its inverse; wFromAlpha; findHydroBoundaries "
           "(c1, c2, velocityMid with the template EOS); __init__ definitions of alN, psiN, cb2, cs2, mu, nu, wN, pN; vJ and detonationVAndT in C06."
           " Also under contract: template findvwLTE (static sentinel exactly when p+(Tn)>p-(Tn) or the vacuum energy of the symmetric phase is non-positive, runaway sentinel reasons, bracketed root of the shooting residual), findMatching (window, bracket, residual, v-=min(cb,vw), alpha+ solves the wall relation, T+ from the enthalpy, T- from _findTm), matchDeflagOrHybInitial, minVelocity, _eqWall (3 nu _eqWall = E - R: entropy-derived vs energy-flux-derived enthalpy ratio), solveAlpha (bracket above 0 and above the vacuum bound, branch choice, tolerances), maxAl.<matching> (shock jump conditions at the front, alpha+ relation, _eqWall form)."
-          " The bracket of the template findMatching ends below the point where the enthalpy w+ changes sign whenever that point lies inside (0, min(cs^2/vw, vw)) (lemma: the sign change is a root of an explicit quadratic Q). Class frame: no template method other than the constructor writes an attribute."),
+          " The bracket of the template findMatching ends below the point where the enthalpy w+ changes sign whenever that point lies inside (0, min(cs^2/vw, vw)) (lemma: the sign change is a root of an explicit quadratic Q). Class frame: no template method other than the constructor writes an attribute."
+          " Both efficiencyFactor contracts and the template integratePlasma/_dxiAndWdv obligations (shared with C03) are discharged here as well."),
     note=COMMON_NOTE + " Power laws used for symbolic exponents: b^(x+y)=b^x b^y, b^(-x)=1/b^x, (b^x)^y=b^(xy), (ab)^x=a^x b^x offered only as a conditional law "
          "(all factors positive => equal; nothing is assumed about their signs). Not decided: numerical agreement of the two root finders to tolerance, uniqueness of the physical root, vwLTE/kappa agreement.",
     design="3 (C15)")
@@ -198,7 +207,8 @@ CLAIMED["C18"] = dict(
           "entry, non-finite rows are dropped individually, setExtrapolationType rebuilds the spline from the same table with extrapolation iff a "
           "side is FUNCTION from any previous pair, range = min/max of kept points. F4a/b/c found here were fixed in the repository."
           " _interpolate with the real _dropBadPoints inlined (4-row tables, every pattern of non-finite rows leaving >= 2 rows): table, spline, derivative splines and reported range are those of the kept rows."
-          " extendInterpolationTable on a 3-row table (0 or 2 new points per side, all 16 combinations): new lower points ++ old rows with their old values ++ new upper points, ordinates belong to their abscissae, strictly increasing, function evaluated only at the new points, adaptive bookkeeping reset."),
+          " extendInterpolationTable on a 3-row table (0 or 2 new points per side, all 16 combinations): new lower points ++ old rows with their old values ++ new upper points, ordinates belong to their abscissae, strictly increasing, function evaluated only at the new points, adaptive bookkeeping reset."
+          " Outside the table derivative() differentiates the mode-respecting evaluation (_evaluateOutOfBounds of the same object), at the out-of-range entries only."),
     note="Bound: array length <= 2, rank <= 2, components <= 2. Not decided: spline accuracy, adaptive updates, extendInterpolationTable "
          "(np.arange with symbolic bounds), file round trip.",
     design="3 (C18)")
@@ -223,7 +233,8 @@ CLAIMED["C08"] = dict(
     text=("Relational covariance obligations on summaries for two fields, every translation vector (symbolic shifts), every sign pattern (symbolic "
           "signs with s^2=1) and the swap, with potential / gradient / masses transformed consistently: wallProfile returns A fields + b and A dPhidz; "
           "EOM.action is invariant; the pressure integrand of _intermediatePressureResults is invariant under translation+reflection; the T33 balance is "
-          "invariant; _updateGrid passes the same thickness, centre and tails when widths/offsets are swapped."),
+          "invariant; _updateGrid passes the same thickness, centre and tails when widths/offsets are swapped."
+          " The box handed to the wall-action minimiser is the configured two-sided one (widths between wallThicknessBounds/Tn, free offsets between wallOffsetBounds)."),
     note=COMMON_NOTE + " Premise: callbacks transformed consistently. Declared site: the first offset is pinned to 0, so the swap is not applied to the "
          "minimisation in _intermediatePressureResults. Not decided: Nelder-Mead / phase tracer / BFGS behaviour under relabelling, more than two fields.",
     design="3 (C08)")
